@@ -271,9 +271,9 @@ const (
 func Ident(name string, q Quoting) string {
 	switch q {
 	case QBacktick:
-		return "`" + name + "`"
+		return "`" + strings.ReplaceAll(name, "`", "``") + "`"
 	case QDouble:
-		return `"` + name + `"`
+		return `"` + strings.ReplaceAll(name, `"`, `""`) + `"`
 	}
 	// a name that is not made of word characters (and dots) cannot be written bare
 	for _, r := range name {
